@@ -391,14 +391,26 @@ class Runner:
         fcntl.flock(self.lock, fcntl.LOCK_EX)
         try:
             time.sleep(0.05)
+            import resource
+            cpu = []
             for _ in range(3):
                 self.stats["blackbox"] += 1
+                r0 = resource.getrusage(resource.RUSAGE_CHILDREN)
                 o = blackbox(self.bins.ti, sbdir, file, args)
+                r1 = resource.getrusage(resource.RUSAGE_CHILDREN)
+                cpu.append((r1.ru_utime - r0.ru_utime) + (r1.ru_stime - r0.ru_stime))
                 if o.kind not in ("timeout", "hard"):
                     self.stats["inconclusive_load"] += 1
                     return False, o
-            # the 500 ms watchdog is wall-clock: on a machine loaded by *other* processes a finite but slow analysis can print
-            # `timeout` three times. A real hang never finishes: give the in-process rounds a generous deadline as a cross-check.
+            # the 500 ms watchdog is wall-clock: on a machine loaded by *other* processes a finite, fast analysis can print
+            # `timeout` three times. CPU time tells the two apart: an analysis that is still computing when the watchdog fires has
+            # burnt most of the 500 ms itself in every run (also when it would finish a second later: the watchdog fires on an idle
+            # machine too), one that was merely descheduled has not.
+            if min(cpu) >= 0.30:
+                self.stats["hang_believed"] += 1
+                return True, o
+            # little CPU: either load, or a hang that does not spin. A real hang never finishes: give the in-process rounds a
+            # generous deadline as a cross-check.
             if os.path.exists(self.bins.server):
                 if self._slow is None:
                     self._slow = Server(self.bins.server, timeout=8.0)
